@@ -3,4 +3,4 @@ From Tele Require Import Model.CounterConc Model.CounterMulti.
 Extraction Language OCaml.
 Extraction "conc_model.ml" step default_nops adder changer init_of obs_of all_done instant_ok final_ok
   w_extra w_readers w_have MAXEXTRA
-  mstep adderM changerM minit mobs mflags m_all_done.
+  mstep adderM changerM minit mobs mflags m_all_done regwin_faults.
